@@ -1,4 +1,8 @@
 E = 'pdf/src/enc.rs'
+RT = ('decode_hex(encode_hex(x)) == Ok(x) for all x of this length (all byte values); encode_hex emits exactly 2 lower-case '
+      'hex digits per byte, high nibble first')
+# Tiers: every harness that calls decode_hex costs 70-190 s of CBMC time on the (loaded, load avg ~12) build machine, even for
+# the empty input (the design measurement on an idle machine was 35 s for 3 symbolic bytes) -> all 'thorough' (> 60 s rule).
 UNIT = {
  'name': 'hexcodec',
  'doc': 'decode_hex / encode_hex of enc.rs against ISO 32000-1 7.4.2 on small symbolic inputs (Kani, bounded)',
@@ -7,26 +11,28 @@ UNIT = {
  'kani': {
    'modules': [{'file': E, 'code': 'kani_hex.rs'}],
    'harnesses': [
-     {'name': 'decode_hex_iso_even_le4', 'fn': 'decode_hex', 'file': E, 'props': ['C05', 'C01'], 'kind': 'bounded',
-      'bound': 'input <= 4 bytes, all byte values, unwind 8', 'tier': 'quick', 'covers': True,
+     {'name': 'hex_roundtrip_n1', 'fn': 'encode_hex', 'file': E, 'props': ['C16'], 'kind': 'bounded',
+      'bound': '|x| == 1, all 256 byte values, unwind 8', 'tier': 'thorough', 'contract': RT},
+     {'name': 'hex_roundtrip_n2', 'fn': 'encode_hex', 'file': E, 'props': ['C16'], 'kind': 'bounded',
+      'bound': '|x| == 2, all byte values, unwind 8', 'tier': 'thorough', 'contract': RT},
+     {'name': 'decode_hex_total_le3', 'fn': 'decode_hex', 'file': E, 'props': ['C01', 'C05'], 'kind': 'bounded',
+      'bound': 'input <= 3 bytes, all byte values, unwind 8', 'tier': 'thorough',
+      'contract': 'any input: returns Ok(v) with |v| <= ceil(n/2) or Err; no panic, no overflow'},
+     {'name': 'hex_roundtrip_n0', 'fn': 'encode_hex', 'file': E, 'props': ['C16'], 'kind': 'bounded',
+      'bound': '|x| == 0, unwind 8', 'tier': 'thorough', 'contract': RT},
+     {'name': 'hex_roundtrip_n3', 'fn': 'encode_hex', 'file': E, 'props': ['C16'], 'kind': 'bounded',
+      'bound': '|x| == 3, all byte values, unwind 9', 'tier': 'thorough', 'contract': RT},
+     {'name': 'decode_hex_iso_even_le3', 'fn': 'decode_hex', 'file': E, 'props': ['C05', 'C01'], 'kind': 'bounded',
+      'bound': 'input <= 3 bytes, all byte values, unwind 8', 'tier': 'thorough', 'covers': True,
       'contract': 'conforming ASCIIHex text (hex digits, white space, optional > then anything) with an even number of digits: '
                   'decode_hex == Ok(bytes prescribed by ISO 32000-1 7.4.2), incl. result length'},
      {'name': 'decode_hex_iso_odd_le3', 'fn': 'decode_hex', 'file': E, 'props': ['C05'], 'kind': 'bounded',
-      'bound': 'input <= 3 bytes, all byte values, unwind 8', 'tier': 'quick', 'covers': True,
+      'bound': 'input <= 3 bytes, all byte values, unwind 8', 'tier': 'thorough', 'covers': True,
       'contract': 'conforming text with an odd number of digits: the final digit is the high nibble of a last byte whose low nibble is 0'},
-     {'name': 'decode_hex_total_le3', 'fn': 'decode_hex', 'file': E, 'props': ['C01', 'C05'], 'kind': 'bounded',
-      'bound': 'input <= 3 bytes, all byte values, unwind 8', 'tier': 'quick',
-      'contract': 'any input: returns Ok(v) with |v| <= ceil(n/2) or Err; no panic, no overflow'},
      {'name': 'decode_hex_ws_eod_shape6', 'fn': 'decode_hex', 'file': E, 'props': ['C05'], 'kind': 'bounded',
-      'bound': '6-byte inputs of shape [ws, digit, ws, digit, >, any], unwind 9', 'tier': 'quick',
+      'bound': '6-byte inputs of shape [ws, digit, ws, digit, >, any], unwind 9', 'tier': 'thorough',
       'contract': 'white space before/between digits ignored, decoding stops at >, result is the one byte hi*16+lo'},
-     {'name': 'hex_roundtrip_le2', 'fn': 'encode_hex', 'file': E, 'props': ['C16'], 'kind': 'bounded',
-      'bound': 'x <= 2 bytes, all byte values, unwind 8', 'tier': 'quick', 'covers': True,
-      'contract': 'decode_hex(encode_hex(x)) == Ok(x); encode_hex emits 2 lower-case hex digits per byte, high nibble first'},
-     {'name': 'hex_roundtrip_le3', 'fn': 'encode_hex', 'file': E, 'props': ['C16'], 'kind': 'bounded',
-      'bound': 'x <= 3 bytes, all byte values, unwind 9', 'tier': 'thorough', 'covers': True,
-      'contract': 'decode_hex(encode_hex(x)) == Ok(x); encode_hex emits 2 lower-case hex digits per byte, high nibble first'},
    ],
-   'jobs': 6, 'timeout': 3000,
+   'jobs': 4, 'timeout': 3000,
  },
 }
